@@ -58,9 +58,9 @@ CHECKS["C15"] = {
     "text": "Theorems (Coq) over SemModel for EVERY normalized deadline, any 64-bit seconds incl. before the epoch: no ASSERT failure "
             "(C15_no_crash), an expired deadline yields the timeout result within 4 own steps (C15_expired_prompt), no early timeout "
             "(C15_no_early_timeout); tied to the code by lock-step replay incl. the timespec handed to FUTEX_WAIT.  The entry points above "
-            "the semaphore are run on the REAL library and kernel (C and C++ builds) over the boundary deadline set, one child process per case.  Third session: sem_wait.c above the semaphore is modelled (SemWaitModel): any deadline value enables the time-out once reached, an expired deadline or note returns non-zero within a bounded number of own steps (C05sx_expired_prompt), no deadline and no note never times out (C15sw_no_deadline); the grid also passes never-notified cancel notes and takes nsync_wait_n's heap path.",
+            "the semaphore are run on the REAL library and kernel (C and C++ builds) over the boundary deadline set, one child process per case.  Third session: sem_wait.c above the semaphore is modelled (SemWaitModel): any deadline value enables the time-out once reached, an expired deadline or note returns non-zero within a bounded number of own steps (C05sx_expired_prompt), no deadline and no note never times out (C15sw_no_deadline); the grid also passes never-notified cancel notes and takes nsync_wait_n's heap path.  Fifth review: the grid also builds the PURE C++11 platform (std::mutex / condition_variable semaphore) and calls the C++ overloads that take a std::chrono time_point and nsync_note_expiry_timepoint; two genuine defects found there and repaired in /repo: F17 (nsync_from_time_point_ produced a negative tv_nsec for a fractional pre-epoch time_point: SIGSEGV in every timed wait) and F18 (nsync_to_time_point_ overflowed for far-future times: hang on the pure C++11 semaphore, expiry before the epoch).",
     "design_ref": "DESIGN.md section 4, C15",
-    "note": "wait_n's short-circuit and the cv/mu/note/counter wait loops: real-library grid, not a theorem (coverage.partial).",
+    "note": "Unnormalized deadlines (tv_nsec >= 10^9) are outside theorems and grid; posix-mutex / sem_t / win32 / macOS semaphores are not built here (coverage.partial).",
     "technique": "Coq proof over semaphore and sem_wait models + lock-step ties + real-library boundary grid in child processes",
 }
 CHECKS["C03"] = {
@@ -96,10 +96,9 @@ CHECKS["C19"] = {
             "frame theorem over NoteModel (C19m_note_new_null_frame: from ANY world the failing allocation step returns NULL and changes no note, "
             "lock, thread, counter or ghost), with NoteModel replayed in lock-step against runs in which a creator thread's allocations fail under "
             "concurrency (scenario note_alloc); every C08 / C09 theorem quantifies over such runs.  Sequential scenario with a fail-the-allocation "
-            "switch compares existing objects byte-for-byte and re-uses them afterwards.",
+            "switch compares existing objects byte-for-byte and re-uses them afterwards.  KNOWN FINDING (fifth review): the constructor's SECOND possible allocation -- the calling thread's waiter struct when parent->note_mu is contended (nsync_waiter_new_: unchecked malloc) -- crashes on failure instead of returning NULL; reproduced by the scenario alloc_waiter, listed in known_findings.json (no local repair: a lock acquisition cannot report failure); the check prints KNOWN-FINDING for it and fails for any other violation.",
     "design_ref": "DESIGN.md section 4, C19",
-    "note": "The dominance facts come from the translator's AST walk (trusted); unchecked allocations elsewhere (nsync_waiter_new_, wait_n) are "
-            "outside the property.",
+    "note": "The dominance facts come from the translator's AST walk (trusted); the known finding concerns nsync_note_new with a contended parent only (nsync_counter_new takes no lock).",
     "technique": "Coq evaluation of source-regenerated dominance conditions + frame theorem over NoteModel with lock-step replay + fault-injection scenarios",
 }
 CHECKS["C02"] = {
